@@ -110,6 +110,9 @@ func GenConfig(t *simrt.Tape, version string) *CfgVersion {
 				p.Versions = append(p.Versions, v)
 			}
 		}
+		if t.Bool(1, 8) {
+			p.Versions = append(p.Versions, "") // binaries built without version information record the empty version: it can be approved like any other
+		}
 		for _, cn := range CfgCounterPool {
 			if t.Bool(2, 3) {
 				p.Counters = append(p.Counters, refcfg.Counter{Name: cn, Rate: rates[t.Biased(len(rates), 1, 3)+0]})
